@@ -52,8 +52,9 @@ static void schur_case(const Pattern &p, hx::Rng &rng, unsigned mask, int type, 
             Mat kuu(ui.size(),Vec(ui.size())); for (size_t a=0;a<ui.size();++a) for (size_t b=0;b<ui.size();++b) kuu[a][b]=Kd[ui[a]][ui[b]]; Vec kp(ui.size()); for (size_t a=0;a<ui.size();++a) { scalar s=0; for (size_t b=0;b<pi.size();++b) s+=Kd[ui[a]][pi[b]]*pp[b]; kp[a]=s; } Vec w=dense_solve(kuu,kp); Vec l2, r2; for (size_t a=0;a<pi.size();++a) { scalar s=0; for (size_t b=0;b<pi.size();++b) s+=Kd[pi[a]][pi[b]]*pp[b]; for (size_t b=0;b<ui.size();++b) s-=Kd[pi[a]][ui[b]]*w[b]; l2.push_back(s); r2.push_back(f[pi[a]]); } hx::prove_eq_vec("type 2: (Kpp - Kpu Kuu^-1 Kup) p = f_p", l2, r2); } }); }
 
 // CPR: x = S f + Scatter P (Fpp (f - A S f)) ; pressure matrix = first-row-of-inverse-diagonal-block weighting of A
-template<template<class> class SRelax> static void cpr_case(const Pattern &pb, hx::Rng &rng, int B, int active_blocks, const char *sname) { hx::run_case(std::string("cpr/")+sname+"/b"+std::to_string(B)+"/act"+std::to_string(active_blocks)+"/"+pb.name, [&]() { hx::Rng r2(rng.s); int nb=pb.n, n=nb*B;
-    SCrs K; K.n=K.m=n; K.ptr.push_back(0); for (int I=0;I<nb;++I) for (int r=0;r<B;++r) { for (ptrdiff_t k=pb.ptr[I];k<pb.ptr[I+1];++k) for (int c=0;c<B;++c) { int i=I*B+r, j=pb.col[k]*B+c; double v = i==j ? 6.0+r2.below(4)/2.0+B : (pb.col[k]==I ? (r2.below(5)-2)/4.0 : -(1+r2.below(6))/8.0); if (v==0 && i!=j) v=0.125; K.col.push_back(j); K.val.push_back(scalar(v)); } K.ptr.push_back(K.col.size()); }
+// holes: the diagonal blocks of the later block rows have structurally missing off-diagonal entries (scalar input only knows stored entries)
+template<template<class> class SRelax> static void cpr_case(const Pattern &pb, hx::Rng &rng, int B, int active_blocks, const char *sname, bool holes=false) { hx::run_case(std::string("cpr/")+sname+"/b"+std::to_string(B)+"/act"+std::to_string(active_blocks)+(holes?"/holes/":"/")+pb.name, [&]() { hx::Rng r2(rng.s); int nb=pb.n, n=nb*B;
+    SCrs K; K.n=K.m=n; K.ptr.push_back(0); for (int I=0;I<nb;++I) for (int r=0;r<B;++r) { for (ptrdiff_t k=pb.ptr[I];k<pb.ptr[I+1];++k) for (int c=0;c<B;++c) { int i=I*B+r, j=pb.col[k]*B+c; double v = i==j ? 6.0+r2.below(4)/2.0+B : (pb.col[k]==I ? (r2.below(5)-2)/4.0 : -(1+r2.below(6))/8.0); if (v==0 && i!=j) v=0.125; if (holes && I>=1 && pb.col[k]==I && r!=c && (r+c+I)%2==1) continue; K.col.push_back(j); K.val.push_back(scalar(v)); } K.ptr.push_back(K.col.size()); }
     auto Km=hx::to_amgcl(K); typedef amgcl::relaxation::as_preconditioner<BE,amgcl::relaxation::spai0> PP; typedef amgcl::relaxation::as_preconditioner<BE,SRelax> SPc; typedef amgcl::preconditioner::cpr<PP,SPc> CPR; typename CPR::params prm; prm.block_size=B; prm.active_rows = active_blocks ? active_blocks*B : 0;
     CPR C(*Km,prm); int N = prm.active_rows ? prm.active_rows : n; int np=N/B; Mat Kd=K.dense(); Vec f=hx::sym_vector("f",n);
     // weights: row ip of Fpp times the diagonal block = e_1^T
@@ -83,7 +84,7 @@ template<int B, template<class> class SRelax> static void cpr_block_case(const P
     { C.partial_update(amgcl::adapter::block_matrix<Blk>(*Km),true); Vec x2=act(C); hx::prove_eq_vec("block-valued CPR: partial update with the unchanged matrix leaves the action unchanged", x2, x); C.partial_update(amgcl::adapter::block_matrix<Blk>(*Km),false); Vec x3=act(C); hx::prove_eq_vec("block-valued CPR: partial update (transfer operators kept) with the unchanged matrix leaves the action unchanged", x3, x); } }); }
 
 // deflated solver: projection leaves a residual orthogonal to every deflation vector; solve is truthful for the original system
-static void deflated_case(const Pattern &p, hx::Rng &rng, int nvec, int k) { hx::CaseOptions coo; coo.max_paths=10; coo.max_depth=160; hx::run_case("deflated/nvec"+std::to_string(nvec)+"/k"+std::to_string(k)+"/"+p.name, [&]() { hx::Rng r2(rng.s); SCrs A=hx::mmatrix(p,r2); int n=p.n; auto Am=hx::to_amgcl(A);
+static void deflated_case(const Pattern &p, hx::Rng &rng, int nvec, int k, bool nonsym) { hx::CaseOptions coo; coo.max_paths=10; coo.max_depth=160; hx::run_case("deflated/nvec"+std::to_string(nvec)+"/k"+std::to_string(k)+(nonsym?"/nonsym/":"/")+p.name, [&]() { hx::Rng r2(rng.s); SCrs A = nonsym ? hx::ddmatrix(p,r2) : hx::mmatrix(p,r2); int n=p.n; auto Am=hx::to_amgcl(A);
     std::vector<scalar> Z(nvec*n); for (int j=0;j<nvec;++j) for (int i=0;i<n;++i) Z[j*n+i]=scalar(j==0 ? 1.0 : (j==1 ? (double)(i%2) : (double)((i*j)%3)-1.0));
     typedef amgcl::deflated_solver<amgcl::amg<BE,amgcl::coarsening::smoothed_aggregation,amgcl::relaxation::spai0>, amgcl::solver::cg<BE>> DS; DS::params prm; prm.nvec=nvec; prm.vec=Z.data(); prm.solver.maxiter=k; prm.solver.tol=scalar(0); prm.solver.abstol=scalar(0); prm.precond.coarse_enough=2;
     DS S(*Am,prm); Vec f=hx::sym_vector("f",n), x0=hx::sym_vector("x",n,0.25); { scalar ff=0; for (auto &v : f) ff+=v*v; hx::assume(hx::le(scalar(1e-30),ff)); }
@@ -93,13 +94,14 @@ static void deflated_case(const Pattern &p, hx::Rng &rng, int nvec, int k) { hx:
 int main(int argc, char **argv) {
     hx::parse_args(argc,argv); bool T=hx::thorough(); hx::Rng rng(hx::args().seed);
     hx::encodes("preconditioner::schur_pressure_correction<U,P>::init / apply / spmv (types 1 and 2, adjust_p 0/1/2, simplec_dia on/off) with exact inner solvers; preconditioner::cpr<P,S>::first_scalar_pass / init / apply / partial_update / invert; deflated_solver::init / project / operator()");
-    hx::assume_note("L-mode: concrete dyadic matrices (nonsymmetric diagonally dominant for Schur/CPR, SPD for deflation), right-hand sides symbolic; inner solvers of the Schur preconditioner are exact (skyline LU for U; a dense exact solve of the operator the preconditioner itself exposes for P)");
+    hx::assume_note("L-mode: concrete dyadic matrices (nonsymmetric diagonally dominant for Schur/CPR, SPD and nonsymmetric for deflation), right-hand sides symbolic; inner solvers of the Schur preconditioner are exact (skyline LU for U; a dense exact solve of the operator the preconditioner itself exposes for P)");
     hx::assume_note("NOT covered: cpr_drs, pmask pattern strings (parameter parsing)");
     for (auto &p : std::vector<Pattern>{hx::dense_pattern(3,3),hx::band_pattern(4,1),hx::dense_pattern(4,4)}) { int n=p.n; for (unsigned mask=1; mask+1<(1u<<n); ++mask) for (int type=1;type<=2;++type) for (int adj=0;adj<3;++adj) { if (!T && p.nnz()==16 && (mask%3!=1)) continue; schur_case(p,rng,mask,type,adj,(mask+adj)%2); } }
     if (T) { Pattern p=hx::random_pattern(5,5,rng,2,true); for (unsigned mask=1; mask+1<32; ++mask) schur_case(p,rng,mask,1+(mask%2),mask%3,mask%2); }
     // the global stage S: ILU(0) is EXACT on these small block patterns (the pressure stage then sees a zero residual), SPAI-0 is not
     for (int B=2;B<=(T?4:3);++B) for (auto &pb : std::vector<Pattern>{hx::dense_pattern(2,2),hx::band_pattern(3,1)}) { cpr_case<amgcl::relaxation::spai0>(pb,rng,B,0,"spai0"); cpr_case<amgcl::relaxation::ilu0>(pb,rng,B,0,"ilu0"); if (pb.n==3) { cpr_case<amgcl::relaxation::spai0>(pb,rng,B,2,"spai0"); cpr_case<amgcl::relaxation::ilu0>(pb,rng,B,2,"ilu0"); } }
     for (auto &pb : std::vector<Pattern>{hx::dense_pattern(2,2),hx::band_pattern(3,1)}) { cpr_block_case<2,amgcl::relaxation::spai0>(pb,rng,0,"spai0"); cpr_block_case<3,amgcl::relaxation::spai0>(pb,rng,0,"spai0"); cpr_block_case<2,amgcl::relaxation::ilu0>(pb,rng,0,"ilu0"); if (pb.n==3) cpr_block_case<2,amgcl::relaxation::spai0>(pb,rng,2,"spai0"); if (T) cpr_block_case<4,amgcl::relaxation::spai0>(pb,rng,0,"spai0"); }
-    for (auto &p : std::vector<Pattern>{hx::grid_pattern(3,2),hx::band_pattern(7,1)}) for (int nvec=1;nvec<=(T?3:2);++nvec) deflated_case(p,rng,nvec,1);
+    for (int B=2;B<=(T?4:3);++B) { cpr_case<amgcl::relaxation::spai0>(hx::band_pattern(3,1),rng,B,0,"spai0",true); cpr_case<amgcl::relaxation::spai0>(hx::dense_pattern(2,2),rng,B,0,"spai0",true); if (T || B==3) cpr_case<amgcl::relaxation::spai0>(hx::band_pattern(4,1),rng,B,3,"spai0",true); }
+    for (auto &p : std::vector<Pattern>{hx::grid_pattern(3,2),hx::band_pattern(7,1)}) for (int nvec=1;nvec<=(T?3:2);++nvec) { deflated_case(p,rng,nvec,1,false); if (nvec>=2) deflated_case(p,rng,nvec,1,true); }
     return hx::finish();
 }
